@@ -20,6 +20,7 @@ func init() {
 			"Decided: (D1) every map store writes into a map proven non-nil (fresh map, parameter whose every caller passes a non-nil map, result of a typed accessor whose summary 'ok implies non-nil' is itself verified with static folding of type assertions, comma-ok assertion under its ok edge, local cell re-made after it escaped to the YAML decoder); no map value that may be nil is stored into the document; no single-result type assertion, no explicit panic, no integer division; every non-constant index/slice operation is a range-loop index or is dominated by the version validation; " +
 			"(D2) every return of Migrate whose error may be non-nil returns the original body and false; (D3) the step table has exactly LastSchemaVersion non-nil slots and slot i stamps schema_version i+1 on every path that returns nil; the table is indexed only after validateVersion succeeded. " +
 			"(D4) path independence, type part: a value a step stores into the document whose Go type is not what the YAML decoder would give back for it (e.g. timeutil.Duration, which is written to the file as a string) is never read by a later step through a typed accessor or type assertion — otherwise the outcome depends on whether the two steps run in one call (typed value in memory) or in two (decoded string). " +
+			"(D5) a step that walks a list of the document (clients, upstreams, filters) handles every element: inside such a loop a step returns only with an error; 'nothing to do for this element' continues with the next one. " +
 			"Not decided: the value part of path independence, idempotence, preservation of unrelated settings and loader acceptance (value-level equalities over documents).",
 		RuleText: "Obligations are SSA instructions that can panic on attacker-shaped YAML; each is discharged by an enumerated rule or fails.",
 		Assumptions: []string{
@@ -133,6 +134,7 @@ func runC13(c *Ctx) {
 	a.migrateReturns()
 	a.table()
 	a.roundTripStable()
+	a.loopsProcessAll()
 }
 
 func isFuncArray(t types.Type) bool {
@@ -1260,4 +1262,53 @@ func (a *c13) roundTripStable() {
 	r.Floor("C13-D4", "constant-key-stores", nWrites, 60)
 	r.Floor("C13-D4", "typed-reads", nReads, 60)
 	r.Ok("C13-D4", "typed-reads-of-stable-keys", "-", fmt.Sprintf("%d typed reads examined against %d key(s) that hold a non-round-trip-stable in-memory type", nReads, len(unstable)))
+}
+
+// loopsProcessAll: D5.
+func (a *c13) loopsProcessAll() {
+	p, r := a.P, a.R
+	n := 0
+	for _, fn := range a.pkgFns {
+		if !strings.Contains(core.FuncKey(fn), "migrateTo") {
+			continue
+		}
+		for _, h := range loopHeaders(fn) {
+			if !strings.HasPrefix(h.Comment, "rangeindex") && !strings.HasPrefix(h.Comment, "rangeiter") {
+				continue
+			}
+			n++
+			for _, b := range fn.Blocks {
+				if b == h || !h.Dominates(b) {
+					continue
+				}
+				ret, ok := b.Instrs[len(b.Instrs)-1].(*ssa.Return)
+				if !ok || len(ret.Results) != 1 {
+					continue
+				}
+				// is b inside the loop region (reached from the body, not from the loop exit)?
+				inBody := false
+				for _, s := range h.Succs {
+					if !strings.HasSuffix(s.Comment, ".done") && (s == b || func() bool {
+						f, _, _ := core.Reach(core.Query{From: []core.Point{{Block: s, Idx: 0}}, Target: func(in ssa.Instruction) bool { return in.Block() == b }, Avoid: func(in ssa.Instruction) bool { return in.Block() == h }})
+						return f
+					}()) {
+						inBody = true
+					}
+				}
+				if !inBody {
+					continue
+				}
+				nilRet := false
+				for _, l := range core.FlattenPhi(core.ResolveCellLoad(ret.Results[0])) {
+					if core.IsNilConst(l) {
+						nilRet = true
+					}
+				}
+				r.Check(!nilRet, "C13-D5", fmt.Sprintf("loop-handles-every-element:%s:%s", core.FuncKey(fn), h.Comment+fmt.Sprint(h.Index)), p.InstrPos(ret),
+					"returns inside the element loop carry an error", "the step returns successfully from inside the loop over the document's elements: the remaining elements keep their old form although the document is stamped with the new version")
+			}
+		}
+	}
+	r.Info["element_loops_in_steps"] = n
+	r.Floor("C13-D5", "element-loops", n, 5)
 }
